@@ -372,6 +372,12 @@ def run(ctx):
     # every path, outside any loop (C08.d's rule, with its WAL/atomic-flush pairing C08.e), evaluated here as C10.g
     if ctx.key_prefix:
         return          # c08d already looks at both backend shapes itself; nothing to repeat on the workspace pass
+    # "the store's final content equals applying the batches one after another": within one batch the LATEST operation on a key /
+    # (key, element) is the one written (C09.g's coalescing clauses), evaluated here as C10.i
+    from . import C09
+    ctx.alias = {"C09.g": "C10.i"}
+    ctx.run_clause("C10.i", C09.c09g_batch)
+    ctx.alias = {}
     from . import C08
     ctx.alias = {"C08.d": "C10.g", "C08.e": "C10.g"}
     ctx.run_clause("C10.g", C08.c08d)
